@@ -11,6 +11,8 @@ mod any_vec;
 mod change;
 mod readable;
 mod rollback;
+#[cfg(feature = "verif")]
+pub use rollback::verif_parse_raw_change;
 mod typed;
 mod writable;
 
